@@ -75,8 +75,11 @@ theorem C11_deleted_stays_deleted (rights : Rights) (ops1 ops2 : List Op) (p i :
 
 /-! ### the code with #18 repaired: any model `d` that consults the deletion log, every other switch free -/
 
-/-- the model of the code with the repair of #18 (`findings/C11-ingest-consults-deletion-log-v2.patch`) -/
+/-- the model of the code with the repair of #18 (`findings/C11-ingest-consults-deletion-log-v2.patch`): since that
+    repair is in /repo this is `Defects.asImplemented` itself -/
 def Defects.repaired18 : Defects := { Defects.asImplemented with ingestIgnoresTombstones := false }
+
+theorem Defects.repaired18_eq : Defects.repaired18 = Defects.asImplemented := rfl
 
 /-- **C11 (one pull, whatever the source holds).** For every model that consults the deletion log — the code with
     #18 repaired, room-scoped deletions and every other deviation included — and ANY source replica (a peer that has
@@ -231,6 +234,47 @@ theorem C11_quiescent_pull_complete (d : Defects) (hI : d.ingestIgnoresTombstone
     have eu' : u.id = t.id := by simpa using eu
     exact hzd u hu n hn (e2.trans eu'.symm)
 
+/-! #### the code as it is -/
+
+/-- **C11 for the code as it is (one pull, whatever the source holds)**: `C11_pull_keeps_deleted` at `Defects.asImplemented` -/
+theorem C11_pull_keeps_deleted_asImplemented (rights : Rights) (dst src : Replica) (room : Nat) (h : NoZombieR dst) :
+    NoZombieR (pull Defects.asImplemented rights dst src room).dst ∧
+      ∀ x ∈ dst.deadPairs, x ∈ (pull Defects.asImplemented rights dst src room).dst.deadPairs :=
+  C11_pull_keeps_deleted Defects.asImplemented rfl rights dst src room h
+
+/-- **C11 for the code as it is (invariant over any schedule)**: `C11_invariant_repaired` at `Defects.asImplemented` -/
+theorem C11_invariant_asImplemented (rights : Rights) (ops : List Op)
+    (hs : runSafe Defects.asImplemented (World.initDated rights) ops) :
+    let w := World.run Defects.asImplemented (World.initDated rights) ops
+    (∀ r ∈ w.peers, NoZombieR r) ∧ (∀ r ∈ w.visible, NoZombieR r) :=
+  C11_invariant_repaired Defects.asImplemented rfl rights ops hs
+
+/-- **C11 for the code as it is (a deleted row stays deleted)**: once a peer stores a deletion record of a row in a
+    room, whatever it pulls afterwards it keeps the record and stores no version of the row in that room -/
+theorem C11_deleted_stays_deleted_asImplemented (rights : Rights) (ops1 ops2 : List Op) (p i room : Nat)
+    (hs : runSafe Defects.asImplemented (World.initDated rights) (ops1 ++ ops2))
+    (hd : (i, room) ∈ ((World.run Defects.asImplemented (World.initDated rights) ops1).peer p).deadPairs) :
+    let w := World.run Defects.asImplemented (World.initDated rights) (ops1 ++ ops2)
+    (i, room) ∈ (w.peer p).deadPairs ∧ ∀ n ∈ (w.peer p).nodes, n.id = i → n.room ≠ room :=
+  C11_deleted_stays_deleted_repaired Defects.asImplemented rfl rights ops1 ops2 p i room hs hd
+
+/-- **C11 for the code as it is, at the level of row ids**, for the histories of the property (rows keep the room they
+    were created in): no replica ever stores any version of a row whose id carries a deletion record on it -/
+theorem C11_invariant_rooms_asImplemented (rights : Rights) (f : Nat → Nat) (ops : List Op)
+    (hf : runFresh Defects.asImplemented (World.initDated rights) ops) (hk : ∀ op ∈ ops, op.keepsRoom f) :
+    let w := World.run Defects.asImplemented (World.initDated rights) ops
+    (∀ r ∈ w.peers, NoZombie r) ∧ (∀ r ∈ w.visible, NoZombie r) :=
+  C11_invariant_rooms Defects.asImplemented rfl rights f ops hf hk
+
+/-- **C11 for the code as it is (a deleted row stays deleted, row ids, rows keep their room)** -/
+theorem C11_deleted_stays_deleted_rooms_asImplemented (rights : Rights) (f : Nat → Nat) (ops1 ops2 : List Op)
+    (p i : Nat) (hf : runFresh Defects.asImplemented (World.initDated rights) (ops1 ++ ops2))
+    (hk : ∀ op ∈ ops1 ++ ops2, op.keepsRoom f)
+    (hd : i ∈ ((World.run Defects.asImplemented (World.initDated rights) ops1).peer p).deadIds) :
+    let w := World.run Defects.asImplemented (World.initDated rights) (ops1 ++ ops2)
+    i ∈ (w.peer p).deadIds ∧ ∀ n ∈ (w.peer p).nodes, n.id ≠ i :=
+  C11_deleted_stays_deleted_rooms Defects.asImplemented rfl rights f ops1 ops2 p i hf hk hd
+
 /-! #### the hypotheses are satisfiable: the schedules of the property on the model of the repaired code -/
 
 instance (tombs : List NTomb) (id room : Nat) : Decidable (Clear tombs id room) := by
@@ -290,7 +334,8 @@ def comeBackTrace : List Op :=
   [.clock 1000, .write 0 (.new 1 1 0 1 11), .compute 0, .pull 1 0 1, .pull 2 0 1,
    .clock 2000, .write 0 (.del 1 12), .compute 0, .pull 1 0 1, .pull 1 2 1, .pull 0 1 1]
 
-/-- **C11_breaks_ingestIgnoresTombstones** (#18). Ingestion never consults the deletion log: after
+/-- **C11_breaks_ingestIgnoresTombstones** (#18, the code before `findings/C11-ingest-consults-deletion-log-v2.patch`;
+    regression witness, replay `corpus/C11/deleted-row-comes-back.ops`). Ingestion never consulted the deletion log: after
     `delete@A, B←A, B←C, A←B` the row is visible again on B and on A — the peer that deleted it — although both
     store its deletion record. With the deletion log consulted it stays deleted. -/
 theorem C11_breaks_ingestIgnoresTombstones :
